@@ -196,7 +196,24 @@ func (s *symCtx) ensureModel() {
 		// the path condition is satisfiable by construction
 		panic(solverTrouble{"path condition became unsatisfiable: " + eventsString(s.events[:s.pos])})
 	}
+	s.validateModel(m, nil)
 	s.model = m
+}
+
+// validateModel re-checks a model the solver returned against the path condition (and extra)
+// with the engine's own evaluator. A solver process under memory pressure has been seen to
+// return values that violate asserted constraints; such an answer is solver trouble (the path
+// is run again on a fresh solver), never a verdict.
+func (s *symCtx) validateModel(m map[string]uint64, extra *term) {
+	memo := map[int]uint64{}
+	for _, l := range s.lits {
+		if l.eval(m, memo) == 0 {
+			panic(solverTrouble{"the solver returned a model that does not satisfy the path condition"})
+		}
+	}
+	if extra != nil && extra.eval(m, memo) == 0 {
+		panic(solverTrouble{"the solver returned a model that does not satisfy the query"})
+	}
 }
 
 func (s *symCtx) evalBool(t *term) bool {
@@ -348,6 +365,7 @@ func (s *symCtx) assume(c *term) {
 		s.Aborted++
 		panic(pathAbort{"assume infeasible"})
 	}
+	s.validateModel(m, c)
 	s.model = m
 	s.record(e, c)
 }
@@ -381,6 +399,7 @@ func (s *symCtx) assert(c *term, prop, label string) {
 		s.sampleDiff(c, bad)
 	}
 	if bad {
+		s.validateModel(m, s.tt.not(c))
 		s.addViolation(prop, label, m)
 		s.assume(c)
 		return
